@@ -46,14 +46,14 @@ Lemma good_weaken : forall S st t' (P Q : Prop) r st',
   good S st t' P r st' -> (P -> Q) -> good S st t' Q r st'.
 Proof.
   intros S st t' P Q r st' [N [S' [X' [Hs Hc]]]] PQ. split; auto.
-  exists S'. repeat split; auto; destruct (Hc c H); auto.
+  exists S'. split; [|split]; auto. intros c E. destruct (Hc c E); auto.
 Qed.
 
 Lemma good_pass : forall S st t1 (P : Prop) r st' t' (Q : Prop),
   good S st t1 P r st' -> (forall c, r <> ROk c) -> good S st t' Q r st'.
 Proof.
   intros S st t1 P r st' t' Q [N [S' [X' [Hs Hc]]]] H. split; auto.
-  exists S'. repeat split; auto; exfalso; eapply H; eauto.
+  exists S'. split; [|split]; auto. intros c E. exfalso; eapply H; eauto.
 Qed.
 
 Lemma good_here : forall S st t' (P : Prop) r,
@@ -111,3 +111,975 @@ Proof.
     unfold binop_result, get_int, get_bool in Hev. rewrite G1, G2 in Hev.
     destruct op; simpl in Eo; try discriminate; eapply good_fresh; eauto; constructor.
 Qed.
+
+(* ---- the three statements, by fuel ------------------------------------------------------------ *)
+
+Definition eval_safe (k : nat) : Prop :=
+  forall G e t kk t' env st S r st',
+    HasType R G e (t, kk) -> ready_expr e = true -> accepts t' t = true ->
+    env_ok S G env -> st_ok S st ->
+    eval genv k env st e = (r, st') ->
+    good S st t' (t = Types.CNil -> nilish e = true) r st'.
+
+Definition items_safe (k : nat) : Prop :=
+  forall G inrun lastb items t kk t' env st S lastc r st',
+    ItemsOk R G inrun lastb items (t, kk) -> ready_items items = true ->
+    (inrun = true -> head_func items = false) ->
+    accepts t' t = true -> env_ok S G env -> st_ok S st ->
+    (items = [] -> exists c, lastc = Some c /\ nth_error S c = Some t') ->
+    eval_items genv k env st items lastc = (r, st') ->
+    good S st t' (t = Types.CNil -> items <> [] -> nilish_items items = true) r st'.
+
+Definition handlers_safe (k : nat) : Prop :=
+  forall G ret cs call env st S ex r st',
+    CatchesOk R G ret cs -> CallOk R G ret call ->
+    forallb (fun c => ready_items (snd c)) cs = true ->
+    match call with None => true | Some b => ready_items b end = true ->
+    env_ok S G env -> st_ok S st ->
+    handlers genv k env st ex cs call = (r, st') ->
+    good S st (cty_of ret) True r st'.
+
+(* ---- argument lists --------------------------------------------------------------------------- *)
+
+Lemma args_safe : forall k, eval_safe k ->
+  forall G args targs, HasTypes R G args targs ->
+  forall tgts env st S ocs r st',
+    forallb ready_expr args = true ->
+    Forall2 (fun t' (b : binding) => accepts t' (fst b) = true) tgts targs ->
+    env_ok S G env -> st_ok S st ->
+    eval_args genv k env args st = ((ocs, r), st') ->
+    exists S', ext S st S' st' /\ st_ok S' st' /\
+      match ocs with
+      | Some cs => typed_cells S' cs tgts
+      | None => r <> RStuck /\ forall c, r <> ROk c
+      end.
+Proof.
+  intros k IHe G args targs HT. induction HT as [G|G a l b bs Ha Hl IH];
+    intros tgts env st S ocs r st' Hr Hacc Henv Hst Hev.
+  - unfold eval_args in Hev. rewrite eval_args_f_nil in Hev. inversion Hev; subst.
+    exists S. split; [apply ext_refl|]. split; auto. inversion Hacc; subst. apply Forall2_nil.
+  - unfold eval_args in Hev. rewrite eval_args_f_cons in Hev.
+    fold (eval_args genv k env l st) in Hev.
+    simpl in Hr. split_and. inversion Hacc as [|t1 b1 tgts' bs' Hacc1 Hacc2]; subst.
+    destruct (eval_args genv k env l st) as [[ocs1 r1] st1] eqn:El.
+    destruct (IH _ _ _ _ _ _ _ H0 Hacc2 Henv Hst El) as [S1 [X1 [Hs1 Hc1]]].
+    destruct ocs1 as [cs|].
+    + destruct (eval genv k env st1 a) as [ra sa] eqn:Ea.
+      destruct b as [tb kb]. simpl in Hacc1.
+      assert (Henv1 : env_ok S1 G env) by (eapply env_ok_ext; eauto).
+      destruct (IHe _ _ _ _ _ _ _ _ _ _ Ha H Hacc1 Henv1 Hs1 Ea) as [Ns [S2 [X2 [Hs2 Hc2]]]].
+      assert (X : ext S st S2 sa) by (eapply ext_trans; [exact X1|exact X2]).
+      destruct ra; inversion Hev; subst; exists S2; (split; [exact X|]); (split; [exact Hs2|]).
+      * pose proof (typed_cells_ext _ _ _ _ _ _ X2 Hc1) as Hc1'. unfold typed_cells in *.
+        constructor; [apply (Hc2 c eq_refl)|exact Hc1'].
+      * split; [discriminate|]. intros; discriminate.
+      * split; [discriminate|]. intros; discriminate.
+      * congruence.
+    + inversion Hev; subst. exists S1. auto.
+Qed.
+
+(* ---- calls ------------------------------------------------------------------------------------ *)
+
+Lemma call_safe : forall k, items_safe k -> handlers_safe k ->
+  forall S st fd cenv Gf cs penv r st',
+  st_ok S st -> env_ok S Gf cenv -> FunOk' R Gf fd -> ready_fdef fd = true ->
+  Forall2 (fun c p => nth_error S c = Some (cty_of (snd p))) cs (fd_params fd) ->
+  bind_params (fd_params fd) cs = Some penv ->
+  call_body genv k (penv ++ cenv) st fd = (r, st') ->
+  good S st (cty_of (fd_ret fd)) True r st'.
+Proof.
+  intros k IHi IHh S st fd cenv Gf cs penv r st' Hst Henv
+         [G' [tb [kb [D [HC [HA [HB Hacc]]]]]]] Hr T B Hev.
+  rewrite ready_fdef_eq in Hr. split_and.
+  assert (He : env_ok S G' (penv ++ cenv)) by (eapply params_env_ok; eauto).
+  unfold call_body in Hev.
+  destruct (eval_items genv k (penv ++ cenv) st (fd_body fd) None) as [rb sb] eqn:Eb.
+  assert (Hne : fd_body fd = [] -> exists c, (None : option nat) = Some c /\ nth_error S c = Some (cty_of (fd_ret fd))).
+  { intros E. rewrite E in HB. inversion HB. }
+  assert (Gb := IHi _ _ _ _ _ _ _ _ _ _ _ _ _ HB H (fun E => ltac:(discriminate E)) Hacc
+                    (env_ok_push _ _ _ _ He) Hst Hne Eb).
+  destruct rb.
+  - inversion Hev; subst. eapply good_weaken; eauto.
+  - destruct Gb as [_ [S1 [X [Hs1 _]]]]. eapply good_trans; [exact X|].
+    eapply IHh; eauto. eapply env_ok_ext; eauto.
+  - inversion Hev; subst. eapply good_pass; eauto. intros; discriminate.
+  - destruct Gb as [N _]. congruence.
+Qed.
+
+Lemma apply_safe : forall k, items_safe k -> handlers_safe k ->
+  forall S st cf cs ps rt r st',
+  st_ok S st -> nth_error S cf = Some (Types.CFun ps rt) -> typed_cells S cs (map snd ps) ->
+  apply_fun genv k st cf cs = (r, st') ->
+  good S st rt (rt <> Types.CNil) r st'.
+Proof.
+  intros k IHi IHh S st cf cs ps rt r st' Hst Hcf T Hev.
+  destruct (cell_get _ _ _ _ _ _ Hst Hcf) as [v [Eg V]].
+  apply val_fun in V. destruct V as [fd [cenv [Gf [-> [Eps [Ert [He [HF Hr]]]]]]]].
+  unfold apply_fun in Hev. rewrite Eg in Hev. subst ps rt.
+  rewrite map_map in T. apply typed_cells_map in T. simpl in T.
+  destruct (bind_params_some (fd_params fd) cs) as [penv B].
+  { eapply Forall2_length'; eauto. }
+  rewrite B in Hev. eapply good_weaken; [eapply call_safe; eauto|].
+  intros _. apply cty_of_nonnil.
+Qed.
+
+(* ---- handlers --------------------------------------------------------------------------------- *)
+
+Lemma items_none_nonempty : forall G inrun items b,
+  ItemsOk R G inrun None items b -> items = [] -> False.
+Proof. intros G inrun items b H E. subst. inversion H. Qed.
+
+Definition ff (P : Prop) (E : false = true) : P := match Bool.diff_false_true E with end.
+
+(* a `{ ... }` body evaluated in the environment of the enclosing context *)
+Lemma items_block : forall k, items_safe k ->
+  forall G b th kh t' env st S r st',
+    ItemsOk R ([] :: G) false None b (th, kh) -> ready_items b = true ->
+    accepts t' th = true -> env_ok S G env -> st_ok S st ->
+    eval_items genv k env st b None = (r, st') ->
+    good S st t' (th = Types.CNil -> nilish_items b = true) r st'.
+Proof.
+  intros k IHi G b th kh t' env st S r st' HI Hr Hacc Henv Hst Hev.
+  assert (Hx : b = [] -> exists c, (None : option nat) = Some c /\ nth_error S c = Some t')
+    by (intros E; exfalso; eapply items_none_nonempty; eauto).
+  eapply good_weaken;
+    [exact (IHi ([] :: G) false None b th kh t' env st S None r st'
+                HI Hr (ff _) Hacc (env_ok_push _ _ _ _ Henv) Hst Hx Hev)|].
+  intros Hn E. apply Hn; auto. intros E'. eapply items_none_nonempty; eauto.
+Qed.
+
+Lemma handlers_step : forall k, items_safe k -> handlers_safe k -> handlers_safe (S k).
+Proof.
+  intros k IHi IHh G ret cs call env st S ex r st' HC HA Hrc Hra Henv Hst Hev.
+  destruct cs as [|[ex' body] t].
+  - rewrite handlers_nil in Hev. destruct call as [b|].
+    + inversion HA; subst.
+      eapply good_weaken; [eapply items_block; eauto|auto].
+    + inversion Hev; subst. apply good_here; auto; [discriminate|intros; discriminate].
+  - rewrite handlers_cons in Hev. inversion HC; subst. simpl in Hrc. split_and.
+    destruct (exn_eqb ex ex').
+    + destruct (eval_items genv k env st body None) as [rb sb] eqn:Eb.
+      assert (Gb : good S st (cty_of ret) True rb sb).
+      { eapply good_weaken; [eapply items_block; eauto|auto]. }
+      destruct rb; try (inversion Hev; subst; exact Gb).
+      destruct Gb as [_ [S1 [X [Hs1 _]]]]. eapply good_trans; [exact X|].
+      eapply IHh; eauto. eapply env_ok_ext; eauto.
+    + eapply IHh; eauto.
+Qed.
+
+(* ---- items ------------------------------------------------------------------------------------ *)
+
+Lemma eval_items_IFunc' : forall k e st fd t last,
+  eval_items genv (S k) e st (IFunc fd :: t) last =
+  eval_items genv k ((fd_name fd, length (cells st)) :: e)
+             (snd (alloc st (Eval.CFun fd ((fd_name fd, length (cells st)) :: e)))) t
+             (Some (length (cells st))).
+Proof.
+  intros. rewrite eval_items_IFunc. unfold alloc, set_cell. simpl. rewrite list_upd_snoc. reflexivity.
+Qed.
+
+Lemma run_sigs_nofunc : forall l, head_func l = false -> run_sigs l = [].
+Proof. intros [|[] l]; simpl; intros; auto; discriminate. Qed.
+
+Lemma nilish_items_tail : forall i rest, rest <> [] -> nilish_items (i :: rest) = nilish_items rest.
+Proof. intros i [|j rest] H; [congruence|]. apply nilish_items_cons. Qed.
+
+(* the items after a binding item *)
+Lemma items_rest : forall k, items_safe k ->
+  forall G inrun rest t kk t' env st S c r st' i,
+    ItemsOk R G inrun None rest (t, kk) -> ready_items rest = true ->
+    (inrun = true -> head_func rest = false) ->
+    accepts t' t = true -> env_ok S G env -> st_ok S st ->
+    eval_items genv k env st rest (Some c) = (r, st') ->
+    good S st t' (t = Types.CNil -> i :: rest <> [] -> nilish_items (i :: rest) = true) r st'.
+Proof.
+  intros k IHi G inrun rest t kk t' env st S c r st' i HI Hr Hrun Hacc Henv Hst Hev.
+  assert (Hx : rest = [] -> exists c', Some c = Some c' /\ nth_error S c' = Some t')
+    by (intros E; exfalso; eapply items_none_nonempty; eauto).
+  eapply good_weaken;
+    [exact (IHi G inrun None rest t kk t' env st S (Some c) r st' HI Hr Hrun Hacc Henv Hst Hx Hev)|].
+  intros Hn E _.
+  assert (Hne : rest <> []) by (intros E'; eapply items_none_nonempty; eauto).
+  rewrite nilish_items_tail by exact Hne. apply Hn; auto.
+Qed.
+
+Ltac pass_nonok Hev Ga :=
+  try (inversion Hev; subst; eapply good_pass; [exact Ga|intros; discriminate]).
+
+Lemma items_step : forall k, eval_safe k -> items_safe k -> items_safe (S k).
+Proof.
+  intros k IHe IHi G inrun lastb items t kk t' env st S lastc r st' HI Hr Hrun Hacc Henv Hst Hlast Hev.
+  destruct items as [|i rest].
+  - rewrite eval_items_nil in Hev. destruct (Hlast eq_refl) as [c [-> Hc]]. inversion Hev; subst.
+    apply good_here; [exact Hst|discriminate|]. intros c' E. inversion E; subst. split; [exact Hc|].
+    intros _ N. congruence.
+  - destruct (ready_items_cons _ _ Hr) as [Hri [Hrr Hadj]].
+    inversion HI; subst.
+    + (* let *)
+      rewrite eval_items_ILet in Hev. simpl in Hri.
+      apply andb_true_iff in Hri. destruct Hri as [Hre Hnn].
+      destruct (eval genv k env st e) as [ra sa] eqn:Ea.
+      match goal with HT : HasType _ _ e (?t0, _) |- _ =>
+        assert (Ga := IHe _ _ _ _ (dflt t0) _ _ _ _ _ HT Hre (accepts_dflt _) Henv Hst Ea);
+        assert (Nn : good S st (dflt t0) (t0 <> Types.CNil) ra sa)
+      end.
+      { eapply good_weaken; [exact Ga|]. intros Hn E. apply Hn in E. rewrite E in Hnn. discriminate. }
+      clear Ga. destruct ra; pass_nonok Hev Nn.
+      destruct Nn as [_ [S1 [X [Hs1 Hc]]]]. destruct (Hc c eq_refl) as [Hc1 Hn].
+      rewrite dflt_nonnil in Hc1 by auto.
+      eapply good_trans; [exact X|].
+      assert (He1 : env_ok S1 G' ((x, c) :: env)).
+      { eapply env_ok_declare; eauto. eapply env_ok_ext; eauto. }
+      eapply items_rest; eauto.
+    + (* var *)
+      rewrite eval_items_IVar in Hev. simpl in Hri.
+      apply andb_true_iff in Hri. destruct Hri as [Hre Hnn].
+      destruct (eval genv k env st e) as [ra sa] eqn:Ea.
+      match goal with HT : HasType _ _ e (?t0, _) |- _ =>
+        assert (Ga := IHe _ _ _ _ (dflt t0) _ _ _ _ _ HT Hre (accepts_dflt _) Henv Hst Ea);
+        assert (Nn : good S st (dflt t0) (t0 <> Types.CNil) ra sa)
+      end.
+      { eapply good_weaken; [exact Ga|]. intros Hn E. apply Hn in E. rewrite E in Hnn. discriminate. }
+      clear Ga. destruct ra; pass_nonok Hev Nn.
+      destruct Nn as [_ [S1 [X [Hs1 Hc]]]]. destruct (Hc c eq_refl) as [Hc1 Hn].
+      rewrite dflt_nonnil in Hc1 by auto.
+      eapply good_trans; [exact X|].
+      assert (He1 : env_ok S1 G' ((x, c) :: env)).
+      { eapply env_ok_declare; eauto. eapply env_ok_ext; eauto. }
+      eapply items_rest; eauto.
+    + (* func *)
+      destruct inrun. { specialize (Hrun eq_refl). simpl in Hrun. discriminate. }
+      rewrite eval_items_IFunc' in Hev. simpl in Hri.
+      assert (Hrs : run_sigs rest = []) by (apply run_sigs_nofunc; apply Hadj; reflexivity).
+      match goal with HD : declare_all _ G = Ok G1 |- _ =>
+        simpl in HD; rewrite Hrs in HD; simpl in HD;
+        destruct (declare (fd_name fd) (fd_cty fd, KTemp) G) as [G1'|] eqn:D; simpl in HD;
+        inversion HD; subst G1' end.
+      set (c := length (cells st)) in *. set (e' := (fd_name fd, c) :: env) in *.
+      set (S' := S ++ [fd_cty fd]).
+      assert (X : ext S st S' st) by (apply ext_snoc; reflexivity).
+      assert (Hc : nth_error S' c = Some (fd_cty fd)).
+      { unfold c, S'. rewrite <- (proj1 Hst). apply nth_error_snoc_new. }
+      assert (He1 : env_ok S' G1 e').
+      { eapply env_ok_declare; eauto. eapply env_ok_ext; eauto. }
+      assert (He2 : env_ok S' ([(fd_name fd, (fd_cty fd, KTemp))] :: G1) e').
+      { intros y ty ky L. simpl in L. destruct (N.eqb y (fd_name fd)) eqn:E.
+        - inversion L; subst. exists c. split; [unfold e'; rewrite lookup_var_cons, E; reflexivity|exact Hc].
+        - apply (He1 y ty ky). exact L. }
+      assert (V : val_ok S' st (Eval.CFun fd e') (fd_cty fd)).
+      { apply V_fun with (Gf := [(fd_name fd, (fd_cty fd, KTemp))] :: G1); auto.
+        apply (FunOk_FunOk' R G1 false fd). assumption. }
+      destruct (alloc_ok R genv S st (Eval.CFun fd e') (fd_cty fd) Hst V) as [Hs' [X' Hc']].
+      eapply good_trans; [exact X'|].
+      eapply items_rest; eauto.
+    + (* expr *)
+      rewrite eval_items_IExpr in Hev. simpl in Hri. destruct b' as [tb' kb'].
+      destruct (eval genv k env st e) as [ra sa] eqn:Ea.
+      destruct rest as [|j rest'].
+      * match goal with HL : ItemsOk _ _ _ _ [] _ |- _ => inversion HL; subst end.
+        match goal with HT : HasType _ _ e _ |- _ =>
+          assert (Ga := IHe _ _ _ _ t' _ _ _ _ _ HT Hri Hacc Henv Hst Ea) end.
+        destruct ra; pass_nonok Hev Ga.
+        destruct Ga as [_ [S1 [X [Hs1 Hc]]]]. destruct (Hc c eq_refl) as [Hc1 Hn].
+        eapply good_trans; [exact X|].
+        assert (Hx : @nil item = [] -> exists c', Some c = Some c' /\ nth_error S1 c' = Some t') by eauto.
+        eapply good_weaken;
+          [exact (IHi G false (Some (t, kk)) [] t kk t' env sa S1 (Some c) r st'
+                      (I_end R G false (t, kk)) eq_refl (ff _) Hacc
+                      (env_ok_ext _ _ _ _ _ _ _ X Henv) Hs1 Hx Hev)|].
+        intros _ E _. rewrite nilish_items_one. auto.
+      * match goal with HT : HasType _ _ e _ |- _ =>
+          assert (Ga := IHe _ _ _ _ (dflt tb') _ _ _ _ _ HT Hri (accepts_dflt _) Henv Hst Ea) end.
+        destruct ra; pass_nonok Hev Ga.
+        destruct Ga as [_ [S1 [X [Hs1 Hc]]]].
+        eapply good_trans; [exact X|].
+        assert (Hx : j :: rest' = [] -> exists c', Some c = Some c' /\ nth_error S1 c' = Some t')
+          by discriminate.
+        match goal with HL : ItemsOk _ _ _ _ (j :: rest') _ |- _ =>
+        eapply good_weaken;
+          [exact (IHi G false (Some (tb', kb')) (j :: rest') t kk t' env sa S1 (Some c) r st'
+                      HL Hrr (ff _) Hacc (env_ok_ext _ _ _ _ _ _ _ X Henv) Hs1 Hx Hev)|] end.
+        intros Hn' E _. rewrite nilish_items_cons. apply Hn'; auto. discriminate.
+Qed.
+
+(* ---- expressions ------------------------------------------------------------------------------ *)
+
+Lemma good_weaken2 : forall S st t1 (P : Prop) r st' t2 (Q : Prop),
+  good S st t1 P r st' -> (P -> t1 = t2 /\ Q) -> good S st t2 Q r st'.
+Proof.
+  intros S st t1 P r st' t2 Q [N [S' [X' [Hs Hc]]]] PQ. split; auto.
+  exists S'. split; [|split]; auto. intros c E. destruct (Hc c E) as [H1 H2].
+  destruct (PQ H2) as [<- HQ]. auto.
+Qed.
+
+Lemma binop_type_nonnil : forall op a b t, binop_type op a b = Some t -> t <> Types.CNil.
+Proof.
+  intros op a b t H. destruct op; simpl in H;
+    match type of H with (if ?c then _ else _) = _ => destruct c end; inversion H; discriminate.
+Qed.
+
+Lemma Forall2_nth_r : forall A B (P : A -> B -> Prop) l m i y,
+  Forall2 P l m -> nth_error m i = Some y -> exists x, nth_error l i = Some x /\ P x y.
+Proof.
+  intros A B P l m i y H. revert i. induction H; intros [|i] E; simpl in E; try discriminate.
+  - inversion E; subst. exists x. auto.
+  - apply IHForall2 in E. exact E.
+Qed.
+
+Ltac sub IHe a tgt Hacc' c S1 X Hs1 Hc1 Hn1 :=
+  let ra := fresh "ra" in let sa := fresh "sa" in let Ea := fresh "Ea" in
+  let Ga := fresh "Ga" in let Hc := fresh "Hc" in
+  match goal with
+  | Hev : context [eval ?genv ?k ?env ?st a], HT : HasType _ _ a _,
+    Henv : TypeSafetyBase.env_ok _ ?S _ ?env, Hst : TypeSafetyBase.st_ok _ _ ?S ?st |- _ =>
+    destruct (eval genv k env st a) as [ra sa] eqn:Ea;
+    assert (Ga := IHe _ _ _ _ tgt _ _ _ _ _ HT ltac:(assumption) Hacc' Henv Hst Ea);
+    destruct ra as [c| | |]; pass_nonok Hev Ga;
+    destruct Ga as [_ [S1 [X [Hs1 Hc]]]]; destruct (Hc c eq_refl) as [Hc1 Hn1]; clear Hc;
+    (eapply good_trans; [exact X|]);
+    pose proof (env_ok_ext _ _ _ _ _ _ _ X Henv)
+  end.
+
+Ltac tgt_is Hacc t' := apply accepts_nonnil in Hacc; [subst t'|try discriminate].
+
+Lemma eval_step : forall k, eval_safe k -> items_safe k -> handlers_safe k -> eval_safe (S k).
+Proof.
+  intros k IHe IHi IHh G e t kk t' env st S r st' HT Hr Hacc Henv Hst Hev.
+  pose proof Hr as Hr0.
+  destruct e as [z|b|x|a|a|a|op a b|c a b|c a|lhs rhs|f args|items|c body|body c
+                 |init cond incr body|fd|es ety|a i|rn args|rn|a rn fld|a];
+    inversion HT; subst.
+  - (* int *) rewrite eval_EInt in Hev. tgt_is Hacc t'.
+    refine (good_fresh _ _ _ _ _ _ _ Hst _ _ Hev); [constructor|intros; discriminate].
+  - (* bool *) rewrite eval_EBool in Hev. tgt_is Hacc t'.
+    refine (good_fresh _ _ _ _ _ _ _ Hst _ _ Hev); [constructor|intros; discriminate].
+  - (* var *) rewrite eval_EVar in Hev.
+    match goal with L : Types.lookup x G = Some _ |- _ => destruct (Henv _ _ _ L) as [c [Lc Hc]] end.
+    rewrite Lc in Hev. inversion Hev; subst.
+    assert (Nn : t <> Types.CNil) by (eapply cell_nonnil; eauto).
+    apply accepts_nonnil in Hacc; auto; subst t'.
+    apply good_here; [exact Hst|discriminate|].
+    intros c' E; inversion E; subst; split; [exact Hc|intros; congruence].
+  - (* neg *) rewrite eval_ENeg in Hev. tgt_is Hacc t'. simpl in Hr.
+    sub IHe a Types.CInt (eq_refl : accepts Types.CInt Types.CInt = true) c1 S1 X1 Hs1 Hc1 Hn1.
+    destruct (cell_int _ _ _ _ _ Hs1 Hc1) as [z Ez]. rewrite Ez in Hev.
+    refine (good_fresh _ _ _ _ _ _ _ Hs1 _ _ Hev); [constructor|intros; discriminate].
+  - (* not *) rewrite eval_ENot in Hev. tgt_is Hacc t'. simpl in Hr.
+    sub IHe a Types.CBool (eq_refl : accepts Types.CBool Types.CBool = true) c1 S1 X1 Hs1 Hc1 Hn1.
+    destruct (cell_bool _ _ _ _ _ Hs1 Hc1) as [z Ez]. rewrite Ez in Hev.
+    refine (good_fresh _ _ _ _ _ _ _ Hs1 _ _ Hev); [constructor|intros; discriminate].
+  - (* bnot *) rewrite eval_EBNot in Hev. tgt_is Hacc t'. simpl in Hr.
+    sub IHe a Types.CInt (eq_refl : accepts Types.CInt Types.CInt = true) c1 S1 X1 Hs1 Hc1 Hn1.
+    destruct (cell_int _ _ _ _ _ Hs1 Hc1) as [z Ez]. rewrite Ez in Hev.
+    refine (good_fresh _ _ _ _ _ _ _ Hs1 _ _ Hev); [constructor|intros; discriminate].
+  - (* bin *)
+    simpl in Hr. split_and.
+    match goal with Hb : binop_type op ?ta ?tb = Some t |- _ =>
+      rename Hb into Hbt; pose proof (binop_type_nonnil _ _ _ _ Hbt) as Nn end.
+    apply accepts_nonnil in Hacc; auto; subst t'.
+    destruct (binop_cases op) as [-> | [-> | [NA NO]]].
+    + (* and *)
+      simpl in Hbt. destruct (is_bool ta) eqn:E1; [|discriminate]. destruct (is_bool tb) eqn:E2; [|discriminate].
+      apply is_bool_eq in E1. apply is_bool_eq in E2. simpl in Hbt. inversion Hbt; subst.
+      rewrite eval_EAnd in Hev.
+      sub IHe a Types.CBool (eq_refl : accepts Types.CBool Types.CBool = true) c1 S1 X1 Hs1 Hc1 Hn1.
+      destruct (cell_bool _ _ _ _ _ Hs1 Hc1) as [b1 Ez]. rewrite Ez in Hev. destruct b1.
+      * sub IHe b Types.CBool (eq_refl : accepts Types.CBool Types.CBool = true) c2 S2 X2 Hs2 Hc2 Hn2.
+        destruct (cell_bool _ _ _ _ _ Hs2 Hc2) as [b2 Ez2]. rewrite Ez2 in Hev.
+        refine (good_fresh _ _ _ _ _ _ _ Hs2 _ _ Hev); [constructor|intros; discriminate].
+      * refine (good_fresh _ _ _ _ _ _ _ Hs1 _ _ Hev); [constructor|intros; discriminate].
+    + (* or *)
+      simpl in Hbt. destruct (is_bool ta) eqn:E1; [|discriminate]. destruct (is_bool tb) eqn:E2; [|discriminate].
+      apply is_bool_eq in E1. apply is_bool_eq in E2. simpl in Hbt. inversion Hbt; subst.
+      rewrite eval_EOr in Hev.
+      sub IHe a Types.CBool (eq_refl : accepts Types.CBool Types.CBool = true) c1 S1 X1 Hs1 Hc1 Hn1.
+      destruct (cell_bool _ _ _ _ _ Hs1 Hc1) as [b1 Ez]. rewrite Ez in Hev. destruct b1.
+      * refine (good_fresh _ _ _ _ _ _ _ Hs1 _ _ Hev); [constructor|intros; discriminate].
+      * sub IHe b Types.CBool (eq_refl : accepts Types.CBool Types.CBool = true) c2 S2 X2 Hs2 Hc2 Hn2.
+        destruct (cell_bool _ _ _ _ _ Hs2 Hc2) as [b2 Ez2]. rewrite Ez2 in Hev.
+        refine (good_fresh _ _ _ _ _ _ _ Hs2 _ _ Hev); [constructor|intros; discriminate].
+    + rewrite eval_EBin in Hev by auto.
+      sub IHe a (dflt ta) (accepts_dflt ta) c1 S1 X1 Hs1 Hc1 Hn1.
+      sub IHe b (dflt tb) (accepts_dflt tb) c2 S2 X2 Hs2 Hc2 Hn2.
+      eapply good_weaken;
+        [eapply (binop_safe S2 sa0 op c1 c2 ta tb t r st' Hs2 (proj1 X2 _ _ Hc1) Hc2 Hbt NA NO); [|exact Hev]|].
+      * intros Eo. match goal with Hq : negb (eq_op op) || _ = true |- _ => rewrite Eo in Hq; simpl in Hq end.
+        split_and. split; intros E; [apply Hn1 in E|apply Hn2 in E];
+          match goal with Hq : negb ?x = true |- _ => rewrite E in Hq; discriminate end.
+      * intros _ E. congruence.
+  - (* cond *)
+    simpl in Hr. split_and. rewrite eval_ECond in Hev.
+    match goal with Hm : merge _ _ = true |- _ => destruct (merge_inv _ _ Hm) as [Nn ->] end.
+    sub IHe c Types.CBool (eq_refl : accepts Types.CBool Types.CBool = true) c1 S1 X1 Hs1 Hc1 Hn1.
+    destruct (cell_bool _ _ _ _ _ Hs1 Hc1) as [b1 Ez]. rewrite Ez in Hev. destruct b1.
+    + eapply good_weaken; [eapply (IHe _ a _ _ t'); eauto|]. intros; congruence.
+    + eapply good_weaken; [eapply (IHe _ b _ _ t'); eauto|]. intros; congruence.
+  - (* if *)
+    simpl in Hr. split_and. rewrite eval_EIf in Hev.
+    match goal with Hm : merge _ _ = true |- _ => destruct (merge_inv _ _ Hm) as [Nn E0] end.
+    subst t. tgt_is Hacc t'.
+    sub IHe c Types.CBool (eq_refl : accepts Types.CBool Types.CBool = true) c1 S1 X1 Hs1 Hc1 Hn1.
+    destruct (cell_bool _ _ _ _ _ Hs1 Hc1) as [b1 Ez]. rewrite Ez in Hev. destruct b1.
+    + eapply good_weaken; [eapply (IHe _ a _ _ Types.CInt); eauto|]. intros; discriminate.
+    + refine (good_fresh _ _ _ _ _ _ _ Hs1 _ _ Hev); [constructor|intros; discriminate].
+  - (* assign *)
+    simpl in Hr. split_and. rewrite eval_EAssign in Hev.
+    match goal with Ha : accepts t ?tr = true |- _ =>
+      rename Ha into Hlr; pose proof (accepts_left_nonnil _ _ Hlr) as Nl end.
+    apply accepts_nonnil in Hacc; auto; subst t'.
+    sub IHe lhs t (accepts_refl t Nl) cl S1 X1 Hs1 Hc1 Hn1.
+    sub IHe rhs t Hlr cr S2 X2 Hs2 Hc2 Hn2.
+    destruct (cell_get _ _ _ _ _ _ Hs2 Hc2) as [v [Eg V]]. rewrite Eg in Hev. inversion Hev; subst.
+    destruct (set_cell_ok R genv S2 sa0 cl v t Hs2 (proj1 X2 _ _ Hc1) V) as [Hs3 X3].
+    eapply good_step; [exact Hs3|exact X3|discriminate|].
+    intros c E; inversion E; subst; split; [apply (proj1 X2); exact Hc1|intros; congruence].
+  - (* call *)
+    simpl in Hr. split_and. rewrite eval_ECall in Hev.
+    destruct (eval_args genv k env args st) as [[ocs r1] s1] eqn:Eargs.
+    match goal with HTs : HasTypes _ _ args ?targs, Ha : args_ok true ?ps ?targs = true |- _ =>
+      destruct (args_safe k IHe _ _ _ HTs (map snd ps) _ _ _ _ _ _ ltac:(assumption)
+                          (args_ok_accepts _ _ _ Ha) Henv Hst Eargs) as [S1 [X1 [Hs1 Hcs]]] end.
+    destruct ocs as [cs|].
+    2:{ inversion Hev; subst. destruct Hcs as [N1 N2]. eapply good_step; eauto.
+        intros c E. exfalso. eapply N2; eauto. }
+    eapply good_trans; [exact X1|]. pose proof (env_ok_ext _ _ _ _ _ _ _ X1 Henv) as Henv1.
+    match goal with HF : HasType _ _ f (Types.CFun ?ps ?rt, _) |- _ =>
+      sub IHe f (Types.CFun ps rt) (accepts_refl (Types.CFun ps rt) ltac:(discriminate)) cf S2 X2 Hs2 Hc2 Hn2 end.
+    pose proof (typed_cells_ext _ _ _ _ _ _ X2 Hcs) as Hcs2.
+    pose proof (apply_safe k IHi IHh _ _ _ _ _ _ _ _ Hs2 Hc2 Hcs2 Hev) as Ga.
+    eapply good_weaken2; [exact Ga|]. intros Nn. split; [|intros; congruence].
+    symmetry. apply accepts_nonnil; auto.
+  - (* block *)
+    rewrite ready_EBlock in Hr. rewrite eval_EBlock in Hev.
+    eapply good_weaken; [eapply items_block; eauto|]. intros Hn E. rewrite nilish_block. auto.
+  - (* while *)
+    simpl in Hr. split_and. rewrite eval_EWhile in Hev. tgt_is Hacc t'.
+    sub IHe c Types.CBool (eq_refl : accepts Types.CBool Types.CBool = true) c1 S1 X1 Hs1 Hc1 Hn1.
+    destruct (cell_bool _ _ _ _ _ Hs1 Hc1) as [b1 Ez]. rewrite Ez in Hev. destruct b1.
+    + match goal with HB : HasType _ _ body ?tb |- _ => destruct tb as [tb kb] end.
+      sub IHe body (dflt tb) (accepts_dflt tb) c2 S2 X2 Hs2 Hc2 Hn2.
+      eapply good_weaken; [eapply (IHe _ (EWhile c body) _ _ Types.CInt); eauto|]. intros; discriminate.
+    + refine (good_fresh _ _ _ _ _ _ _ Hs1 _ _ Hev); [constructor|intros; discriminate].
+  - (* do-while *)
+    simpl in Hr. split_and. rewrite eval_EDoWhile in Hev. tgt_is Hacc t'.
+    match goal with HB : HasType _ _ body ?tb |- _ => destruct tb as [tb kb] end.
+    sub IHe body (dflt tb) (accepts_dflt tb) c2 S2 X2 Hs2 Hc2 Hn2.
+    sub IHe c Types.CBool (eq_refl : accepts Types.CBool Types.CBool = true) c1 S1 X1 Hs1 Hc1 Hn1.
+    destruct (cell_bool _ _ _ _ _ Hs1 Hc1) as [b1 Ez]. rewrite Ez in Hev. destruct b1.
+    + eapply good_weaken; [eapply (IHe _ (EDoWhile body c) _ _ Types.CInt); eauto|]. intros; discriminate.
+    + refine (good_fresh _ _ _ _ _ _ _ Hs1 _ _ Hev); [constructor|intros; discriminate].
+  - (* for *)
+    simpl in Hr. split_and. rewrite eval_EFor in Hev. tgt_is Hacc t'.
+    match goal with HB : HasType _ _ init ?tb |- _ => destruct tb as [ti ki] end.
+    sub IHe init (dflt ti) (accepts_dflt ti) c1 S1 X1 Hs1 Hc1 Hn1.
+    assert (HW : HasType R G (EWhile cond (EBlock [IExpr body; IExpr incr])) (Types.CInt, KConst)).
+    { eapply T_While; [eassumption|]. apply T_Block.
+      eapply I_expr; [apply HasType_push; eassumption|].
+      eapply I_expr; [apply HasType_push; eassumption|]. apply I_end. }
+    assert (HRW : ready_expr (EWhile cond (EBlock [IExpr body; IExpr incr])) = true).
+    { simpl. repeat match goal with Hq : ready_expr _ = true |- _ => rewrite Hq; clear Hq end. reflexivity. }
+    eapply good_weaken; [eapply (IHe _ _ _ _ Types.CInt _ _ _ _ _ HW HRW); eauto|]. intros; discriminate.
+  - (* lambda *)
+    simpl in Hr. rewrite eval_ELambda in Hev.
+    apply accepts_nonnil in Hacc; [subst t'|unfold fd_cty, sig_cty; discriminate].
+    refine (good_fresh _ _ _ _ _ _ _ Hst _ _ Hev).
+    + apply V_fun with (Gf := [] :: G);
+        [apply env_ok_push; exact Henv|apply (FunOk_FunOk' R G true fd); assumption|exact Hr].
+    + unfold fd_cty, sig_cty; intros; discriminate.
+  - (* array literal *)
+    simpl in Hr. rewrite eval_EArrLit in Hev. tgt_is Hacc t'.
+    destruct (eval_args genv k env es st) as [[ocs r1] s1] eqn:Eargs.
+    match goal with HTs : HasTypes _ _ es ?tes, Ha : check_elems ety ?tes = true |- _ =>
+      destruct (args_safe k IHe _ _ _ HTs (map (fun _ => cty_of ety) tes) _ _ _ _ _ _ Hr
+                          (check_elems_accepts _ _ Ha) Henv Hst Eargs) as [S1 [X1 [Hs1 Hcs]]] end.
+    destruct ocs as [cs|].
+    2:{ inversion Hev; subst. destruct Hcs as [N1 N2]. eapply good_step; eauto.
+        intros c E. exfalso. eapply N2; eauto. }
+    eapply good_trans; [exact X1|].
+    destruct (new_arr_ok R genv S1 s1 cs Hs1) as [Hs2 [X2 Hn]].
+    destruct (new_arr s1 cs) as [ar s2] eqn:En. simpl in Hs2, X2, Hn.
+    eapply good_trans; [exact X2|].
+    refine (good_fresh _ _ _ _ _ _ _ Hs2 _ _ Hev); [|intros; discriminate].
+    eapply V_arr; [exact Hn|]. eapply typed_cells_const; eauto.
+  - (* index *)
+    simpl in Hr. split_and. rewrite eval_EIndex in Hev.
+    match goal with HA : HasType _ _ a (Types.CArr ?e0, _) |- _ =>
+      sub IHe a (Types.CArr e0) (accepts_refl (Types.CArr e0) ltac:(discriminate)) ca S1 X1 Hs1 Hc1 Hn1 end.
+    sub IHe i Types.CInt (eq_refl : accepts Types.CInt Types.CInt = true) ci S2 X2 Hs2 Hc2 Hn2.
+    unfold index_result in Hev.
+    destruct (cell_get _ _ _ _ _ _ Hs2 (proj1 X2 _ _ Hc1)) as [v [Eg V]].
+    destruct (cell_int _ _ _ _ _ Hs2 Hc2) as [z Ez]. rewrite Eg, Ez in Hev.
+    apply val_arr in V. destruct V as [->|[ar [elems [-> [Ha Hall]]]]].
+    + inversion Hev; subst. apply good_here; [exact Hs2|discriminate|intros; discriminate].
+    + rewrite Ha in Hev.
+      destruct ((z <? 0)%Z || (Z.of_nat (length elems) <=? z)%Z) eqn:Eb.
+      * inversion Hev; subst. apply good_here; [exact Hs2|discriminate|intros; discriminate].
+      * apply orb_false_iff in Eb. destruct Eb as [Eb1 Eb2].
+        apply Z.ltb_ge in Eb1. apply Z.leb_gt in Eb2.
+        destruct (nth_error elems (Z.to_nat z)) as [c|] eqn:En.
+        -- inversion Hev; subst.
+           assert (Hc : nth_error S2 c = Some t).
+           { rewrite Forall_forall in Hall. apply Hall. eapply nth_error_In; eauto. }
+           assert (Nn : t <> Types.CNil) by (eapply cell_nonnil; eauto).
+           apply accepts_nonnil in Hacc; auto; subst t'.
+           apply good_here; [exact Hs2|discriminate|].
+           intros c' E; inversion E; subst; split; [exact Hc|intros; congruence].
+        -- apply nth_error_None in En. lia.
+  - (* record constructor *)
+    simpl in Hr. rewrite eval_ERecNew in Hev. tgt_is Hacc t'.
+    destruct (eval_args genv k env args st) as [[ocs r1] s1] eqn:Eargs.
+    match goal with HTs : HasTypes _ _ args ?targs, Ha : args_ok false _ ?targs = true |- _ =>
+      pose proof (args_ok_accepts _ _ _ Ha) as Hacs; rewrite map_map in Hacs; simpl in Hacs;
+      destruct (args_safe k IHe _ _ _ HTs _ _ _ _ _ _ _ Hr Hacs Henv Hst Eargs) as [S1 [X1 [Hs1 Hcs]]] end.
+    destruct ocs as [cs|].
+    2:{ inversion Hev; subst. destruct Hcs as [N1 N2]. eapply good_step; eauto.
+        intros c E. exfalso. eapply N2; eauto. }
+    eapply good_trans; [exact X1|].
+    destruct (new_rec_ok R genv S1 s1 cs Hs1) as [Hs2 [X2 Hn]].
+    destruct (new_rec s1 cs) as [o s2] eqn:En. simpl in Hs2, X2, Hn.
+    eapply good_trans; [exact X2|].
+    refine (good_fresh _ _ _ _ _ _ _ Hs2 _ _ Hev); [|intros; discriminate].
+    eapply V_rec; eauto.
+  - (* nil *)
+    rewrite eval_ERecNil in Hev.
+    destruct (accepts_inv _ _ Hacc) as [[_ [r' ->]]|[N _]]; [|congruence].
+    refine (good_fresh _ _ _ _ _ _ _ Hst _ _ Hev); [constructor|reflexivity].
+  - (* field *)
+    simpl in Hr. rewrite eval_EField in Hev. tgt_is Hacc t'; [|apply cty_of_nonnil].
+    sub IHe a (Types.CRec rn) (accepts_refl (Types.CRec rn) ltac:(discriminate)) ca S1 X1 Hs1 Hc1 Hn1.
+    unfold field_result in Hev.
+    destruct (cell_get _ _ _ _ _ _ Hs1 Hc1) as [v [Eg V]]. rewrite Eg in Hev.
+    apply val_rec in V. destruct V as [->|[o [flds [fs' [-> [Ho [Hf Hall]]]]]]].
+    + inversion Hev; subst. apply good_here; [exact Hs1|discriminate|intros; discriminate].
+    + rewrite Ho in Hev.
+      match goal with Hf' : find_rec rn R = Some ?fs, Hn : nth_error ?fs fld = Some ?tf |- _ =>
+        rewrite Hf' in Hf; inversion Hf; subst fs';
+        destruct (Forall2_nth_r _ _ _ _ _ fld (cty_of tf) Hall (map_nth_error cty_of _ _ Hn)) as [c [Ec Hc]] end.
+      rewrite Ec in Hev. inversion Hev; subst.
+      apply good_here; [exact Hs1|discriminate|].
+      intros c' E; inversion E; subst; split; [exact Hc|]. intros E'. exfalso. eapply cty_of_nonnil; eauto.
+  - (* print *)
+    simpl in Hr. rewrite eval_EPrint in Hev. tgt_is Hacc t'.
+    sub IHe a Types.CInt (eq_refl : accepts Types.CInt Types.CInt = true) c1 S1 X1 Hs1 Hc1 Hn1.
+    destruct (cell_int _ _ _ _ _ Hs1 Hc1) as [z Ez]. rewrite Ez in Hev.
+    destruct (print_ok R genv S1 sa z Hs1) as [Hs2 X2].
+    eapply good_trans; [exact X2|].
+    refine (good_fresh _ _ _ _ _ _ _ Hs2 _ _ Hev); [constructor|intros; discriminate].
+Qed.
+
+Theorem safe_all : forall k, eval_safe k /\ items_safe k /\ handlers_safe k.
+Proof.
+  induction k as [|k [IHe [IHi IHh]]].
+  - split; [|split].
+    + intros G e t kk t' env st S r st' HT Hr Hacc Henv Hst Hev. rewrite eval_O in Hev.
+      inversion Hev; subst. apply good_here; [exact Hst|discriminate|intros; discriminate].
+    + intros G inrun lastb items t kk t' env st S lastc r st' HI Hr Hrun Hacc Henv Hst Hlast Hev.
+      rewrite eval_items_O in Hev.
+      inversion Hev; subst. apply good_here; [exact Hst|discriminate|intros; discriminate].
+    + intros G ret cs call env st S ex r st' HC HA Hrc Hra Henv Hst Hev. rewrite handlers_O in Hev.
+      inversion Hev; subst. apply good_here; [exact Hst|discriminate|intros; discriminate].
+  - split; [|split]; [apply eval_step|apply items_step|apply handlers_step]; auto.
+Qed.
+
+End Safety.
+
+(* ---- the evaluator is type safe ------------------------------------------------------------------
+
+   S is the store typing (cell index -> type).  `accepts t' t` lets the consumer of a nil literal
+   choose the record type the fresh nil cell is typed at (t' = t for every other expression,
+   see eval_type_safe_nonnil). *)
+Theorem eval_type_safe : forall R genv fuel G e t k t' env st S r st',
+  HasType R G e (t, k) -> ready_expr e = true -> accepts t' t = true ->
+  env_ok genv S G env -> st_ok R genv S st ->
+  eval genv fuel env st e = (r, st') ->
+  r <> RStuck /\
+  exists S', ext S st S' st' /\ st_ok R genv S' st' /\
+             forall c, r = ROk c -> nth_error S' c = Some t'.
+Proof.
+  intros R genv fuel G e t k t' env st S r st' HT Hr Hacc Henv Hst Hev.
+  destruct (proj1 (safe_all R genv fuel) _ _ _ _ _ _ _ _ _ _ HT Hr Hacc Henv Hst Hev)
+    as [N [S' [X [Hs Hc]]]].
+  split; auto. exists S'. split; [|split]; auto. intros c E. apply (Hc c E).
+Qed.
+
+Theorem eval_type_safe_nonnil : forall R genv fuel G e t k env st S r st',
+  HasType R G e (t, k) -> ready_expr e = true -> t <> Types.CNil ->
+  env_ok genv S G env -> st_ok R genv S st ->
+  eval genv fuel env st e = (r, st') ->
+  r <> RStuck /\
+  exists S', ext S st S' st' /\ st_ok R genv S' st' /\
+             forall c, r = ROk c -> nth_error S' c = Some t.
+Proof.
+  intros. eapply eval_type_safe; eauto. apply accepts_refl; auto.
+Qed.
+
+Theorem eval_items_type_safe : forall R genv fuel G items t k t' env st S r st',
+  ItemsOk R ([] :: G) false None items (t, k) -> ready_items items = true -> accepts t' t = true ->
+  env_ok genv S G env -> st_ok R genv S st ->
+  eval_items genv fuel env st items None = (r, st') ->
+  r <> RStuck /\
+  exists S', ext S st S' st' /\ st_ok R genv S' st' /\
+             forall c, r = ROk c -> nth_error S' c = Some t'.
+Proof.
+  intros R genv fuel G items t k t' env st S r st' HI Hr Hacc Henv Hst Hev.
+  destruct (items_block R genv fuel (proj1 (proj2 (safe_all R genv fuel)))
+              _ _ _ _ _ _ _ _ _ _ HI Hr Hacc Henv Hst Hev) as [N [S' [X [Hs Hc]]]].
+  split; auto. exists S'. split; [|split]; auto. intros c E. apply (Hc c E).
+Qed.
+
+Theorem handlers_type_safe : forall R genv fuel G ret cs call env st S ex r st',
+  CatchesOk R G ret cs -> CallOk R G ret call ->
+  forallb (fun c => ready_items (snd c)) cs = true ->
+  match call with None => true | Some b => ready_items b end = true ->
+  env_ok genv S G env -> st_ok R genv S st ->
+  handlers genv fuel env st ex cs call = (r, st') ->
+  r <> RStuck /\
+  exists S', ext S st S' st' /\ st_ok R genv S' st' /\
+             forall c, r = ROk c -> nth_error S' c = Some (cty_of ret).
+Proof.
+  intros R genv fuel G ret cs call env st S ex r st' HC HA H1 H2 Henv Hst Hev.
+  destruct (proj2 (proj2 (safe_all R genv fuel)) _ _ _ _ _ _ _ _ _ _ HC HA H1 H2 Henv Hst Hev)
+    as [N [S' [X [Hs Hc]]]].
+  split; auto. exists S'. split; [|split]; auto. intros c E. apply (Hc c E).
+Qed.
+
+(* ---- whole programs ---------------------------------------------------------------------------- *)
+
+Fixpoint find_fun (x : ident) (fs : list fdef) : option fdef :=
+  match fs with
+  | [] => None
+  | f :: t => if N.eqb x (fd_name f) then Some f else find_fun x t
+  end.
+
+Definition is_tint (t : ty) : bool := match t with TInt => true | _ => false end.
+
+(* the entry function exists, takes int parameters, and gets one argument per parameter *)
+Definition main_fits (p : program) (args : list Z) : bool :=
+  match find_fun (p_main p) (p_funcs p) with
+  | Some fd => forallb (fun q => is_tint (snd q)) (fd_params fd) &&
+               Nat.eqb (length (fd_params fd)) (length args)
+  | None => false
+  end.
+
+Definition val_shape (v : cellval) (t : ty) : Prop :=
+  match t, v with
+  | TInt, Eval.CInt _ | TBool, Eval.CBool _ | TFun _ _, Eval.CFun _ _
+  | TArr _, Eval.CArr _ | TRec _, Eval.CRec _ => True
+  | _, _ => False
+  end.
+
+Fixpoint assoc (x : ident) (sigs : list (ident * cty)) : option cty :=
+  match sigs with
+  | [] => None
+  | (y, t) :: r => if N.eqb x y then Some t else assoc x r
+  end.
+
+Lemma declare_all_fresh : forall sigs s G0 G x b,
+  declare_all sigs (s :: G0) = Ok G -> lookup_scope x s = Some b -> assoc x sigs = None.
+Proof.
+  induction sigs as [|[y t] sigs IH]; intros s G0 G x b D L; simpl; auto.
+  simpl in D. destruct (lookup_scope y s) eqn:Ly; [discriminate|]. simpl in D.
+  destruct (N.eqb x y) eqn:E.
+  - apply N.eqb_eq in E. congruence.
+  - eapply IH; eauto. simpl. rewrite E. exact L.
+Qed.
+
+Lemma declare_all_lookup : forall sigs s G0 G, declare_all sigs (s :: G0) = Ok G ->
+  forall y, Types.lookup y G =
+            match assoc y sigs with Some t => Some (t, KTemp) | None => Types.lookup y (s :: G0) end.
+Proof.
+  induction sigs as [|[x t] sigs IH]; intros s G0 G D y; simpl in D.
+  - inversion D; subst. reflexivity.
+  - destruct (lookup_scope x s) eqn:Lx; [discriminate|]. simpl in D.
+    rewrite (IH _ _ _ D y). simpl. destruct (N.eqb y x) eqn:E.
+    + apply N.eqb_eq in E. subst y.
+      rewrite (declare_all_fresh _ _ _ _ x (t, KTemp) D); [reflexivity|].
+      simpl. rewrite N.eqb_refl. reflexivity.
+    + destruct (assoc y sigs); reflexivity.
+Qed.
+
+Lemma assoc_top_sigs : forall fs s G0 G fd, declare_all (top_sigs fs) (s :: G0) = Ok G ->
+  In fd fs -> assoc (fd_name fd) (top_sigs fs) = Some (fd_cty fd).
+Proof.
+  induction fs as [|f fs IH]; intros s G0 G fd D HIn; [contradiction|].
+  simpl in D. destruct (lookup_scope (fd_name f) s) eqn:Lx; [discriminate|]. simpl in D.
+  simpl. destruct HIn as [->|HIn].
+  - rewrite N.eqb_refl. reflexivity.
+  - destruct (N.eqb (fd_name fd) (fd_name f)) eqn:E.
+    + apply N.eqb_eq in E.
+      pose proof (declare_all_fresh _ _ _ _ (fd_name f) (fd_cty f, KTemp) D) as Hf.
+      simpl in Hf. rewrite N.eqb_refl in Hf. specialize (Hf eq_refl).
+      rewrite <- E in Hf. rewrite (IH _ _ _ _ D HIn) in Hf. discriminate.
+    + eapply IH; eauto.
+Qed.
+
+Lemma global_env_assoc : forall fs i y t, assoc y (top_sigs fs) = Some t ->
+  exists c, Eval.lookup y (global_env fs i) = Some c /\ i <= c /\
+            nth_error (map fd_cty fs) (c - i) = Some t.
+Proof.
+  induction fs as [|f fs IH]; intros i y t H; simpl in H; [discriminate|].
+  simpl. destruct (N.eqb y (fd_name f)) eqn:E.
+  - inversion H; subst. exists i. rewrite Nat.sub_diag. auto.
+  - destruct (IH (S i) y t H) as [c [L [Hle Hn]]]. exists c. split; auto. split; [lia|].
+    replace (c - i) with (S (c - S i)) by lia. exact Hn.
+Qed.
+
+Lemma find_fun_global : forall fs i x fd, find_fun x fs = Some fd ->
+  In fd fs /\
+  exists c, Eval.lookup x (global_env fs i) = Some c /\ i <= c /\ nth_error fs (c - i) = Some fd.
+Proof.
+  induction fs as [|f fs IH]; intros i x fd H; simpl in H; [discriminate|].
+  simpl. destruct (N.eqb x (fd_name f)) eqn:E.
+  - inversion H; subst. split; auto. exists i. rewrite Nat.sub_diag. auto.
+  - destruct (IH (S i) x fd H) as [HIn [c [L [Hle Hn]]]]. split; auto.
+    exists c. split; auto. split; [lia|].
+    replace (c - i) with (S (c - S i)) by lia. exact Hn.
+Qed.
+
+Section Program.
+Variable p : program.
+Hypothesis HWT : WellTyped p.
+Hypothesis HR : eval_ready p = true.
+
+Let R := p_recs p.
+Let genv := global_env (p_funcs p) 0.
+Let S0 : styping := map fd_cty (p_funcs p).
+
+Lemma global_ctx : exists G, declare_all (top_sigs (p_funcs p)) [[]] = Ok G /\ FunsOk R G (p_funcs p) /\
+  env_ok genv S0 G [].
+Proof.
+  destruct HWT as [_ [G [D HF]]]. exists G. split; auto. split; auto.
+  intros x t k L. rewrite (declare_all_lookup _ _ _ _ D x) in L.
+  destruct (assoc x (top_sigs (p_funcs p))) as [t0|] eqn:Ea; [|simpl in L; discriminate].
+  inversion L; subst. destruct (global_env_assoc _ 0 _ _ Ea) as [c [Lc [_ Hn]]].
+  rewrite Nat.sub_0_r in Hn. exists c. split; auto.
+Qed.
+
+Lemma FunsOk_In : forall G fs fd, FunsOk R G fs -> In fd fs -> FunOk R G false fd.
+Proof. induction 1; intros HIn; destruct HIn; subst; auto. Qed.
+
+Lemma init_ok : st_ok R genv S0 (init_state p).
+Proof.
+  destruct global_ctx as [G [D [HF He]]].
+  split.
+  - unfold S0, init_state. simpl. now rewrite !map_length.
+  - intros c v t Hc Ht. unfold init_state in Hc. simpl in Hc. unfold S0 in Ht.
+    rewrite nth_error_map in Hc, Ht.
+    destruct (nth_error (p_funcs p) c) as [fd|] eqn:En; simpl in Hc, Ht; [|discriminate].
+    inversion Hc; inversion Ht; subst. apply nth_error_In in En.
+    apply V_fun with (Gf := [(fd_name fd, (fd_cty fd, KTemp))] :: G).
+    + intros x t k L. simpl in L. destruct (N.eqb x (fd_name fd)) eqn:E.
+      * inversion L; subst. apply N.eqb_eq in E. subst x.
+        destruct (global_env_assoc _ 0 _ _ (assoc_top_sigs _ _ _ _ _ D En)) as [c' [Lc [_ Hn]]].
+        rewrite Nat.sub_0_r in Hn. exists c'. split; auto.
+      * apply (He x t k L).
+    + apply (FunOk_FunOk' R G false fd). eapply FunsOk_In; eauto.
+    + unfold eval_ready in HR. rewrite forallb_forall in HR. auto.
+Qed.
+
+Definition alloc_arg (acc : list nat * state) (z : Z) : list nat * state :=
+  let '(cs, st) := acc in let (c, st') := alloc st (Eval.CInt (wrap32 z)) in (cs ++ [c], st').
+
+Lemma alloc_args_ok : forall args cs st S ts cs' st',
+  st_ok R genv S st -> typed_cells S cs ts ->
+  fold_left alloc_arg args (cs, st) = (cs', st') ->
+  exists S', ext S st S' st' /\ st_ok R genv S' st' /\
+             typed_cells S' cs' (ts ++ map (fun _ => Types.CInt) args) /\
+             (forall c v, nth_error (cells st) c = Some v -> nth_error (cells st') c = Some v).
+Proof.
+  induction args as [|z args IH]; intros cs st S ts cs' st' Hs T F.
+  - simpl in F. inversion F; subst. exists S. rewrite app_nil_r. split; [apply ext_refl|]. auto.
+  - assert (V : val_ok R genv (S ++ [Types.CInt]) st (Eval.CInt (wrap32 z)) Types.CInt) by constructor.
+    destruct (alloc_ok R genv S st _ _ Hs V) as [Hs1 [X1 Hc1]].
+    cbn [fold_left] in F.
+    assert (Ea : alloc_arg (cs, st) z =
+                 (cs ++ [fst (alloc st (Eval.CInt (wrap32 z)))], snd (alloc st (Eval.CInt (wrap32 z)))))
+      by reflexivity.
+    rewrite Ea in F. clear Ea.
+    assert (T1 : typed_cells (S ++ [Types.CInt]) (cs ++ [fst (alloc st (Eval.CInt (wrap32 z)))])
+                             (ts ++ [Types.CInt])).
+    { apply Forall2_app; [eapply typed_cells_ext; eauto|]. constructor; auto. }
+    destruct (IH _ _ _ _ _ _ Hs1 T1 F) as [S' [X' [Hs' [T' Hp]]]].
+    exists S'. split; [eapply ext_trans; eauto|]. split; auto. split.
+    + rewrite <- app_assoc in T'. exact T'.
+    + intros c0 v Hc0. apply Hp. simpl. now apply nth_error_snoc_old.
+Qed.
+
+Theorem run_safe : forall fuel args, main_fits p args = true ->
+  exists fd, find_fun (p_main p) (p_funcs p) = Some fd /\
+  (run_program fuel p args <> OStuck) /\
+  forall v printed, run_program fuel p args = OResult v printed ->
+    exists S st, val_ok R genv S st v (cty_of (fd_ret fd)).
+Proof.
+  intros fuel args Hfit. unfold main_fits in Hfit.
+  destruct (find_fun (p_main p) (p_funcs p)) as [fd|] eqn:Ef; [|discriminate].
+  exists fd. split; auto.
+  apply andb_true_iff in Hfit. destruct Hfit as [Hints Hlen]. apply Nat.eqb_eq in Hlen.
+  destruct (find_fun_global _ 0 _ _ Ef) as [HIn [cm [Lm [_ Hn]]]]. rewrite Nat.sub_0_r in Hn.
+  fold genv in Lm. unfold run_program. fold genv.
+  change (fun (acc : list nat * state) (z : Z) =>
+            let '(cs, st) := acc in
+            let (c, st') := alloc st (Eval.CInt (wrap32 z)) in (cs ++ [c], st')) with alloc_arg.
+  destruct (fold_left alloc_arg args ([], init_state p)) as [argcells st1] eqn:Efold.
+  destruct (alloc_args_ok args [] (init_state p) S0 [] argcells st1 init_ok (Forall2_nil _) Efold)
+    as [S1 [X1 [Hs1 [T1 Hp]]]]. simpl in T1.
+  rewrite Lm.
+  assert (Hcm : get_cell st1 cm = Some (Eval.CFun fd [])).
+  { unfold get_cell. apply Hp. unfold init_state. simpl. rewrite nth_error_map, Hn. reflexivity. }
+  rewrite Hcm.
+  assert (Hcm1 : nth_error S1 cm = Some (fd_cty fd)).
+  { apply (proj1 X1). unfold S0. rewrite nth_error_map, Hn. reflexivity. }
+  destruct Hs1 as [HL1 HV1]. pose proof (HV1 _ _ _ Hcm Hcm1) as V.
+  assert (Hs1 : st_ok R genv S1 st1) by (split; auto).
+  apply val_fun in V. destruct V as [fd' [cenv [Gf [Efd [_ [_ [He [HF Hrf]]]]]]]].
+  inversion Efd; subst fd' cenv.
+  assert (T : Forall2 (fun c q => nth_error S1 c = Some (cty_of (snd q))) argcells (fd_params fd)).
+  { clear - T1 Hints Hlen. revert argcells T1 Hlen Hints.
+    generalize (fd_params fd) as ps. intros ps. revert args.
+    induction ps as [|q ps IH]; intros [|z args] cs T L Hi; simpl in *; try discriminate;
+      inversion T; subst; constructor.
+    - apply andb_true_iff in Hi. destruct Hi as [Hq _]. destruct (snd q); try discriminate. assumption.
+    - apply andb_true_iff in Hi. destruct Hi as [_ Hi]. eapply IH; eauto. }
+  destruct (bind_params_some (fd_params fd) argcells) as [penv B].
+  { eapply Forall2_length'; eauto. }
+  rewrite B.
+  pose proof (safe_all R genv fuel) as [_ [IHi IHh]].
+  pose proof (fun r st' => call_safe R genv fuel IHi IHh S1 st1 fd [] Gf argcells penv r st'
+                                      Hs1 He HF Hrf T B) as Hcall.
+  rewrite app_nil_r in Hcall. unfold call_body in Hcall.
+  destruct (match eval_items genv fuel penv st1 (fd_body fd) None with
+            | (RExc ex, st2) => handlers genv fuel penv st2 ex (fd_catches fd) (fd_catch_all fd)
+            | (ROk c, s) => (ROk c, s) | (RFuel, s) => (RFuel, s) | (RStuck, s) => (RStuck, s)
+            end) as [rr s2] eqn:Er.
+  destruct (Hcall rr s2 eq_refl) as [N [S2 [X2 [Hs2 Hc2]]]].
+  destruct rr as [c| | |]; try congruence.
+  - destruct (Hc2 c eq_refl) as [Hc _].
+    destruct (cell_get _ _ _ _ _ _ Hs2 Hc) as [v [Eg V]]. rewrite Eg.
+    split; [discriminate|]. intros v' pr E. inversion E; subst. eauto.
+  - split; [discriminate|]. intros; discriminate.
+  - split; [discriminate|]. intros; discriminate.
+Qed.
+
+End Program.
+
+Lemma val_ok_shape : forall R genv S st v t, val_ok R genv S st v (cty_of t) -> val_shape v t.
+Proof. intros R genv S st v t H. destruct t; simpl in H; inversion H; simpl; auto. Qed.
+
+(* the store-typed form: the result value is well-typed (closures with well-typed bodies, array
+   and record references to objects of the declared element / field types) *)
+Theorem core_type_safety_typed : forall p, WellTyped p -> eval_ready p = true ->
+  forall fuel args, main_fits p args = true ->
+  exists fd, find_fun (p_main p) (p_funcs p) = Some fd /\
+    run_program fuel p args <> OStuck /\
+    forall v printed, run_program fuel p args = OResult v printed ->
+      exists S st, val_ok (p_recs p) (global_env (p_funcs p) 0) S st v (cty_of (fd_ret fd)).
+Proof. intros p HWT HR fuel args Hfit. exact (run_safe p HWT HR fuel args Hfit). Qed.
+
+(* accepted programs of the modelled core run safely: no fuel makes the evaluator stuck, and a
+   result has the declared result type of the entry function *)
+Theorem core_type_safety : forall p, WellTyped p -> eval_ready p = true ->
+  forall fuel args, main_fits p args = true ->
+  run_program fuel p args <> OStuck /\
+  forall v printed, run_program fuel p args = OResult v printed ->
+    exists fd, find_fun (p_main p) (p_funcs p) = Some fd /\ val_shape v (fd_ret fd).
+Proof.
+  intros p HWT HR fuel args Hfit.
+  destruct (run_safe p HWT HR fuel args Hfit) as [fd [Ef [N Hv]]]. split; auto.
+  intros v pr E. exists fd. split; auto. destruct (Hv v pr E) as [S [st V]].
+  eapply val_ok_shape; eauto.
+Qed.
+
+Corollary core_type_safety_tc : forall p, tc_program p = OK -> eval_ready p = true ->
+  forall fuel args, main_fits p args = true -> run_program fuel p args <> OStuck.
+Proof.
+  intros p H HR fuel args Hfit. apply (core_type_safety p (typecheck_sound p H) HR fuel args Hfit).
+Qed.
+
+(* ---- examples ------------------------------------------------------------------------------------ *)
+
+Local Open Scope N_scope.
+
+(* a closure over a record, an array, a catch clause:
+     record P { a : int; b : int; }
+     func f(x : int) -> int {
+       let a = [ x, 2 ] : int; let p = P(x, 3);
+       let g = let func (y : int) -> int { y + p.a };
+       g(a[1]) / x
+     } catch (division_by_zero) { -1 }
+     func main(n : int) -> int { print(f(n)) + f(0) }                                      *)
+Definition ex_f : fdef :=
+  FDef 2 [(10%N, false, TInt)] TInt
+    [ILet 11 (EArrLit [EVar 10; EInt 2] TInt);
+     ILet 12 (ERecNew 1 [EVar 10; EInt 3]);
+     ILet 13 (ELambda (FDef 14 [(15%N, false, TInt)] TInt
+                         [IExpr (EBin Add (EVar 15) (EField (EVar 12) 1 0))] [] None));
+     IExpr (EBin Div (ECall (EVar 13) [EIndex (EVar 11) (EInt 1)]) (EVar 10))]
+    [(ExDivision, [IExpr (EInt (-1))])] None.
+Definition ex_main : fdef :=
+  FDef 0 [(20%N, false, TInt)] TInt
+    [IExpr (EBin Add (EPrint (ECall (EVar 2) [EVar 20])) (ECall (EVar 2) [EInt 0]))] [] None.
+Definition ex_prog : program :=
+  {| p_recs := [(1%N, [TInt; TInt])]; p_funcs := [ex_f; ex_main]; p_main := 0%N |}.
+
+Example ex_prog_hyps : tc_program ex_prog = OK /\ eval_ready ex_prog = true /\
+                       main_fits ex_prog [5%Z] = true.
+Proof. vm_compute. auto. Qed.
+Example ex_prog_runs : run_program 50 ex_prog [5%Z] = OResult (Eval.CInt 0) [1%Z].
+Proof. vm_compute. reflexivity. Qed.
+
+(* Programs the model typechecker accepts and the evaluator gets stuck on: one per side condition
+   of eval_ready. *)
+
+(* (S1)  let x = nil : the one nil cell is shared by fields of two record types
+     record A { a : int; }  record B { b : int; c : int; }  record H1 { f : A; }  record H2 { f : B; }
+     func main() -> int { let x = nil; let h1 = H1(x); let h2 = H2(x); h1.f = A(1); h2.f.c }   *)
+Definition stuck_nil_alias : program :=
+  {| p_recs := [(1%N, [TInt]); (2%N, [TInt; TInt]); (3%N, [TRec 1]); (4%N, [TRec 2])];
+     p_funcs := [FDef 0 [] TInt
+       [ILet 10 (ERecNil 0);
+        ILet 11 (ERecNew 3 [EVar 10]);
+        ILet 12 (ERecNew 4 [EVar 10]);
+        IExpr (EAssign (EField (EVar 11) 3 0) (ERecNew 1 [EInt 1]));
+        IExpr (EField (EField (EVar 12) 4 0) 2 1)] [] None];
+     p_main := 0%N |}.
+Example stuck_nil_alias_accepted_and_stuck :
+  tc_program stuck_nil_alias = OK /\ main_fits stuck_nil_alias [] = true /\
+  eval_ready stuck_nil_alias = false /\ run_program 50 stuck_nil_alias [] = OStuck.
+Proof. vm_compute. auto. Qed.
+
+(* (S2)  comparison with nil
+     record A { a : int; }
+     func main() -> int { let r = A(1); r == nil ? 1 : 0 }                                  *)
+Definition stuck_eq_nil : program :=
+  {| p_recs := [(1%N, [TInt])];
+     p_funcs := [FDef 0 [] TInt
+       [ILet 10 (ERecNew 1 [EInt 1]);
+        IExpr (ECond (EBin Eq (EVar 10) (ERecNil 1)) (EInt 1) (EInt 0))] [] None];
+     p_main := 0%N |}.
+Example stuck_eq_nil_accepted_and_stuck :
+  tc_program stuck_eq_nil = OK /\ main_fits stuck_eq_nil [] = true /\
+  eval_ready stuck_eq_nil = false /\ run_program 50 stuck_eq_nil [] = OStuck.
+Proof. vm_compute. auto. Qed.
+
+(* (S3)  two consecutive nested functions, the first calls the second
+     func main() -> int {
+       func f(x : int) -> int { g(x) }
+       func g(x : int) -> int { x + 1 }
+       f(1) }                                                                                *)
+Definition stuck_mutual : program :=
+  {| p_recs := [];
+     p_funcs := [FDef 0 [] TInt
+       [IFunc (FDef 20 [(30%N, false, TInt)] TInt [IExpr (ECall (EVar 21) [EVar 30])] [] None);
+        IFunc (FDef 21 [(31%N, false, TInt)] TInt [IExpr (EBin Add (EVar 31) (EInt 1))] [] None);
+        IExpr (ECall (EVar 20) [EInt 1])] [] None];
+     p_main := 0%N |}.
+Example stuck_mutual_accepted_and_stuck :
+  tc_program stuck_mutual = OK /\ main_fits stuck_mutual [] = true /\
+  eval_ready stuck_mutual = false /\ run_program 50 stuck_mutual [] = OStuck.
+Proof. vm_compute. auto. Qed.
+
+(* a missing entry function is the remaining way to OStuck (main_fits excludes it) *)
+Example stuck_no_main :
+  tc_program {| p_recs := []; p_funcs := []; p_main := 0%N |} = OK /\
+  run_program 5 {| p_recs := []; p_funcs := []; p_main := 0%N |} [] = OStuck.
+Proof. vm_compute. auto. Qed.
